@@ -22,7 +22,8 @@ EXPLANATION = (
     "(resp. terminal write) of the body raising KeyboardInterrupt instead of taking effect, for every k, then the context is "
     "left by that exception; X3 after every request (completed or interrupted) the input stream's flags are the initial ones; "
     "X4 three enter / request / exit cycles on one object and on fresh objects leave the descriptor table unchanged (with and "
-    "without threadsafe_event_trigger); X5 an Input nested in a window on the same terminal; X6 after a window is left the "
+    "without threadsafe_event_trigger); X5 an Input nested in a window on the same terminal, and Input / Cbreak / Nonblocking "
+    "nested in each other on one stream (leaving the inner context brings back exactly the state the outer one had set up); X6 after a window is left the "
     "cursor is visible, the alternate screen has been left and the main screen's content (resp. every line above the window) "
     "is what it was.  The model state after leaving is compared, component by component, with the state before entering.  "
     "Structural part: M5 the raw state-changing primitives (tcsetattr, setcbreak/setraw, F_SETFL, signal.signal, "
